@@ -322,7 +322,7 @@ func (s *Server) acceptAndRegister(ctx context.Context, l *uacp.Listener) {
 				}
 			}
 
-			go s.cb.RegisterConn(ctx, c, s.cfg.certificate, s.cfg.privateKey)
+			go s.cb.RegisterConn(ctx, c, s.cfg.certificate, s.cfg.privateKey, s.cfg.acceptSecurity)
 			if s.cfg.logger != nil {
 				s.cfg.logger.Info("registered connection: %s", c.RemoteAddr())
 			}
